@@ -377,6 +377,10 @@ func classify(w *world, kind string, n *qnode, text string) string {
 			continue
 		}
 		alone = true
+		// under URN redaction the accepted spellings of URN conditions (set checks with an empty value) are their own case
+		if w.redact && (c.PT == "urn" || (c.PT == "attr" && c.Key == "urn")) {
+			return kind + ":redacted-urn-condition"
+		}
 		if !keyLexesAsWritten(c.PT, c.Key) || strings.ToLower(c.Key) != c.Key {
 			// a scheme that was not written as `urns.<scheme>` in the text came from an implicit condition
 			if c.PT == "urn" && !urns.IsValidScheme(c.Key) && !strings.Contains(strings.ToLower(text), "urns."+c.Key) {
